@@ -32,8 +32,20 @@ def nl_boundary(nl):
     return (180.0 / math.pi) * math.acos(math.sqrt((1 - math.cos(math.pi / 30.0)) / (1 - math.cos(2 * math.pi / nl))))
 
 
+_NEG = {"Ne": "Eq", "Eq": "Ne", "Lt": "Ge", "Ge": "Lt", "Gt": "Le", "Le": "Gt"}
+
+
 def atoms(pc, head):
-    return [(t, tr) for t, tr in pc if isinstance(t, tuple) and t and t[0] == head]
+    """path-condition atoms with this comparison head; `x >= k is false` is reported as `x < k is true` etc."""
+    out = []
+    for t, tr in pc:
+        if not (isinstance(t, tuple) and t):
+            continue
+        if t[0] == head:
+            out.append((t, tr))
+        elif _NEG.get(t[0]) == head and len(t) == 3:
+            out.append(((head,) + tuple(t[1:]), not tr))
+    return out
 
 
 def run(facts, rep, tier):
@@ -273,8 +285,18 @@ def run(facts, rep, tier):
             e = e[2][0]
         n7 += 1
         s_ = show(e)
-        ok = e[0] == "call" and len(e[2]) == 4 and e[2][0][0] == "arg" and e[2][0][2][-1:] == ("lat",) and e[2][1][2][-1:] == ("lon",) \
-            and "get_observer_coords" in show(e[2][2]) and show(e[2][2]).rstrip().endswith(".0") and show(e[2][3]).rstrip().endswith(".1")
+        # the first two arguments are the row's lat / lon - read back from the row, or the very expressions stored there
+        stored = {}
+        for f in ("lat", "lon"):
+            for s2 in field_stores(facts, "Plane", f, [b]):
+                if s2["via"] == "assign" and s2["stmt"]["rv"]["k"] == "use":
+                    stored.setdefault(f, []).append(expr(du, s2["stmt"]["rv"]["x"]))
+
+        def is_row(x, f):
+            return (x[0] == "arg" and x[2][-1:] == (f,)) or x in stored.get(f, [])
+        obs_e = [show(e[2][i]) for i in (2, 3)] if e[0] == "call" and len(e[2]) == 4 else ["", ""]
+        ok = e[0] == "call" and len(e[2]) == 4 and is_row(e[2][0], "lat") and is_row(e[2][1], "lon") \
+            and all("get_observer_coords" in x for x in obs_e) and obs_e[0].rstrip().endswith(".0") and obs_e[1].rstrip().endswith(".1")
         rep.oblige(ok, ("haversine-args",))
         rep.sample({"rule": "R08.7", "distance": s_[:200]})
         if not ok:
